@@ -13,6 +13,7 @@ import asyncio
 import itertools
 import json
 import struct
+import time
 
 import common
 import vloop
@@ -129,10 +130,6 @@ class FakeTransport:
         self.closed = True
 
 
-def _table_sizes(parser):
-    return [[k, sum(len(v) for v in e.values())] for k, e in parser.table.items()]
-
-
 def ip_str(n):
     return "%d.%d.%d.%d" % ((n >> 24) & 255, (n >> 16) & 255, (n >> 8) & 255, n & 255)
 
@@ -154,8 +151,7 @@ async def _scan(mode, protos, ids, feed, timeout=3):
 
     loop = asyncio.get_event_loop()
     nh = len(feed) if mode == "u" else 0
-    info = {"delivered": [0] * nh, "raised": 0, "tables": [[] for _ in range(nh)], "completed": [False] * nh,
-            "aborted": False}
+    info = {"delivered": [0] * nh, "raised": 0, "completed": [False] * nh, "aborted": False}
 
     async def fake_multicast(loop_, services, address="224.0.0.251", port=5353, timeout=4, end_condition=None):
         protocol = mdns.MulticastDnsSdClientProtocol(loop_, services, address, port, end_condition)
@@ -179,7 +175,6 @@ async def _scan(mode, protos, ids, feed, timeout=3):
         loop_.call_soon(deliver)
         res = await protocol.get_response(timeout)
         info["aborted"] = bool(recv.closed_by_protocol)
-        info["tables"] = [_table_sizes(qr.parser) for qr in protocol.query_responses.values()]
         return res
 
     hostno = {}
@@ -208,7 +203,6 @@ async def _scan(mode, protos, ids, feed, timeout=3):
         try:
             return await protocol.get_response()
         finally:
-            info["tables"][idx] = _table_sizes(protocol.parser)
             tr.close()
 
     async def fake_knocker(*a, **kw):
@@ -361,7 +355,7 @@ def make_service(rng, ty, dev, idx):
         chunks += [["am", hx(dev["apmodel"])]] if dev.get("apmodel") else []
         chunks += [["vs", hx("366.0")]]
     elif ty == "_airport._tcp.local":
-        chunks = [["waMA", hx("AA-BB-CC-DD-EE-FF,raMA=1,syVs=7.8.1")]] if False else [["syAP", hx("115")]]
+        chunks = [["syAP", hx("115")], ["syVs", hx("7.8.1")]]      # no "waMA": its parsing is outside the model
     elif ty == "_appletv-v2._tcp.local":
         inst = dev["dmapid"] + "_hs"
         port = dev["dmapport"]
@@ -409,6 +403,8 @@ def make_device(rng, i, kinds, nserv=None):
     # does not contradict the AirPlay/RAOP/Companion model string
     n = nserv or rng.randint(1, 5)
     tys = rng.sample(kinds, min(n, len(kinds)))
+    if "_hscp._tcp.local" in tys and dev["apmodel"] != "Bogus1,1":
+        dev["apmodel"] = None      # an iTunes library (model Music) does not also claim an Apple TV model
     dev["services"] = [make_service(rng, t, dev, k) for k, t in enumerate(tys)]
     return dev
 
@@ -467,11 +463,13 @@ def pick_protos(rng):
     return sorted(rng.sample(PROTO_ORDER, k), key=PROTO_ORDER.index)
 
 
-def device_ids(dev):
+def device_ids(dev, req=None):
     """Identifiers a user could pass to scan(identifier=...) for this device."""
     out = []
     for sv in dev["services"]:
         t = sv["type"]
+        if req is not None and t not in req:
+            continue
         if t == "_mediaremotetv._tcp.local":
             out.append(dev["id"] + "-MRP")
         elif t == "_airplay._tcp.local":
@@ -483,9 +481,25 @@ def device_ids(dev):
     return out
 
 
+def fit_to_queries(rng, dg, nq):
+    """A unicast responder normally sends one answer per query: pad with answers that carry no
+    record / fold surplus datagrams into the last one."""
+    dg = list(dg)
+    while len(dg) < nq:
+        dg.insert(rng.randrange(len(dg) + 1), {"src": dg[0]["src"], "msg": {"answers": [], "additional": [], "compress": False}})
+    while len(dg) > nq:
+        extra = dg.pop()
+        dg[-1]["msg"]["answers"] += extra["msg"]["answers"]
+        dg[-1]["msg"]["additional"] += extra["msg"]["additional"]
+    return dg
+
+
 def gen_consistent(rng, mode, with_ids):
     """1..4 self-consistent devices with 1..5 services each."""
     protos = pick_protos(rng)
+    if with_ids and mode == "m" and rng.random() < 0.6:
+        protos = rng.choice([["MRP", "AirPlay"], ["MRP"], ["AirPlay", "Companion"], ["AirPlay", "RAOP"], ["DMAP"]])
+        protos = sorted(protos, key=PROTO_ORDER.index)
     req = requested_types(protos)
     ndev = rng.randint(1, 4) if mode == "m" else rng.randint(1, 3)
     devs = []
@@ -495,11 +509,12 @@ def gen_consistent(rng, mode, with_ids):
         if rng.random() < 0.25:
             kinds += FOREIGN_TYPES[:1]
         dev = make_device(rng, i, kinds)
-        if any(sv["type"] == "_hscp._tcp.local" for sv in dev["services"]) and dev["apmodel"] not in (None, "Bogus1,1"):
-            dev["apmodel"] = None
-            dev["services"] = [make_service(rng, sv["type"], dev, k) for k, sv in enumerate(dev["services"])]
         devs.append(dev)
         dg = device_datagrams(rng, dev)
+        if mode == "u" and rng.random() < 0.7:
+            dg = fit_to_queries(rng, dg, nqueries(protos))
+        elif rng.random() < 0.1:
+            dg.append({"src": dg[0]["src"], "msg": {"answers": [], "additional": [], "compress": False}})
         for d in dg:
             d["host"] = i
         dgrams += dg
@@ -522,7 +537,7 @@ def gen_consistent(rng, mode, with_ids):
                        "host": rng.randrange(ndev), "garbage": bytes(rng.randrange(256) for _ in range(rng.randint(0, 20))).hex()})
     ids = []
     if with_ids:
-        cands = [x for d in devs for x in device_ids(d)]
+        cands = [x for d in devs for x in device_ids(d, req)]
         if cands and rng.random() < 0.9:
             ids = [rng.choice(cands)]
             if rng.random() < 0.2:
@@ -714,126 +729,87 @@ def judge_single(sc, obs):
     return errs
 
 
-def run_scenario(sc, orders):
-    """Runs the real scan for every order.  Returns list of (order, obs, info)."""
-    enc = encode_scenario(sc)
-    res = []
-    for order in orders:
-        obs, info = run_scan(sc["mode"], sc["protos"], sc["ids"], feed_for(sc, enc, order))
-        res.append((order, obs, info))
-    return enc, res
-
-
-def judge_scenario(sc, res):
-    """-> list of (key, what, order) judged on the implementation alone."""
-    out = []
-    mode = "multicast" if sc["mode"] == "m" else "unicast"
-    for order, obs, info in res:
-        for k, w in judge_single(sc, obs):
-            out.append(("C12:%s:%s" % (mode, k), w, order, None))
-    if not sc["consistent"]:
-        return out
-    base_order, base_obs, base_info = res[0]
-    base_n = normalise(base_obs)
-    base_e = effective(sc, base_order, base_info)
-    for order, obs, info in res[1:]:
-        if normalise(obs) == base_n:
-            continue
-        e = effective(sc, order, info)
-        dup = len(order) != len(set(order))
-        if e == base_e:
-            out.append(("C12:%s:order-or-duplication-dependence" % mode,
-                        "same datagrams taken in, different configurations returned (%s)" %
-                        ("duplicated delivery" if dup else "other arrival order"), order, base_order))
-        elif sc["mode"] == "m":
-            if dup:
-                out.append(("C12:identifier-scan:early-abort-on-duplicate",
-                            "identifier scan: a duplicated datagram advances the per-source counter, the scan aborts "
-                            "before the remaining datagrams and returns different configurations", order, base_order))
-            else:
-                out.append(("C12:identifier-scan:early-abort-order",
-                            "identifier scan: the device sent more datagrams than there are queries; which services are "
-                            "returned depends on which datagrams arrive before the counter reaches the number of queries",
-                            order, base_order))
-        else:
-            out.append(("C12:unicast-scan:completion-by-datagram-count",
-                        "unicast scan: completion is decided by counting datagrams (%s): returned configurations differ" %
-                        ("a duplicate is counted as a further response" if dup else
-                         "more datagrams than queries, only the first ones are used"), order, base_order))
-    return out
-
-
 # --------------------------------------------------------------------------- Coq terms
 
-def cstr(s):
-    return "[" + ";".join(str(ord(ch)) for ch in s) + "]"
+class Emit:
+    """Prints Coq terms, naming every distinct string / dict / record / configuration once per file
+    (elaborating large list literals is what costs time in coqc)."""
 
+    def __init__(self):
+        self.names = {}
+        self.defs = []
 
-def costr(s):
-    return "None" if s is None else "(Some %s)" % cstr(s)
+    def intern(self, prefix, typ, term):
+        key = (typ, term)
+        n = self.names.get(key)
+        if n is None:
+            n = "%s%d" % (prefix, len(self.names))
+            self.names[key] = n
+            self.defs.append("Definition %s : %s := %s." % (n, typ, term))
+        return n
 
+    def str(self, s):
+        raw = s.encode("utf-8")
+        if all(32 <= b < 127 for b in raw):
+            term = '(lit "%s")' % s.replace('"', '""')
+        else:
+            term = "[" + ";".join(str(b) for b in raw) + "]"
+        return self.intern("s", "str", term)
 
-def cdict(items):
-    return "[" + ";".join("(%s,%s)" % (cstr(k), cstr(v)) for k, v in items) + "]"
+    def ostr(self, s):
+        return "None" if s is None else "(Some %s)" % self.str(s)
 
+    def dict(self, items):
+        return self.intern("p", "dict", "[" + ";".join("(%s,%s)" % (self.str(k), self.str(v)) for k, v in items) + "]")
 
-def crec(r, rdlen):
-    name = ".".join(r["name"])
-    t = r["type"]
-    if t == T_A:
-        rd = "(RA %d)" % r["ip"]
-    elif t == T_PTR:
-        rd = "(RPtr %s)" % cstr(".".join(r["target"]))
-    elif t == T_TXT:
-        kv = [(k, "" if v is None else decode_value(bytes.fromhex(v))) for k, v in r["txt"]]
-        rd = "(RTxt %s)" % cdict(kv)
-    elif t == T_SRV:
-        rd = "(RSrv %d %d %d %s)" % (r["prio"], r["weight"], r["port"], cstr(".".join(r["target"])))
-    else:
-        rd = "(RRaw [%s])" % ";".join(str(b) for b in r["raw"])
-    return "(mkRec %s %d %d %d %d %s)" % (cstr(name), t, r["cls"], r["ttl"], rdlen, rd)
+    def rec(self, r, rdlen):
+        name = ".".join(r["name"])
+        t = r["type"]
+        if t == T_A:
+            rd = "(RA %d)" % r["ip"]
+        elif t == T_PTR:
+            rd = "(RPtr %s)" % self.str(".".join(r["target"]))
+        elif t == T_TXT:
+            kv = [(k, "" if v is None else decode_value(bytes.fromhex(v))) for k, v in r["txt"]]
+            rd = "(RTxt %s)" % self.dict(kv)
+        elif t == T_SRV:
+            rd = "(RSrv %d %d %d %s)" % (r["prio"], r["weight"], r["port"], self.str(".".join(r["target"])))
+        else:
+            rd = "(RRaw [%s])" % ";".join(str(b) for b in r["raw"])
+        return self.intern("r", "rec", "(mkRec %s %d %d %d %d %s)" % (self.str(name), t, r["cls"], r["ttl"], rdlen, rd))
 
+    def dgram(self, d, rdlens):
+        if "garbage" in d:
+            return "Garbage"
+        recs = d["msg"]["answers"] + d["msg"]["additional"]
+        return self.intern("d", "dgram", "(Msg [%s])" % ";".join(self.rec(r, n) for r, n in zip(recs, rdlens)))
 
-def cdgram(d, rdlens):
-    if "garbage" in d:
-        return "Garbage"
-    recs = d["msg"]["answers"] + d["msg"]["additional"]
-    return "(Msg [%s])" % ";".join(crec(r, n) for r, n in zip(recs, rdlens))
+    def obs(self, obs):
+        if obs == "EXC":
+            return "[mkO 0 None false 99 [] []]"
+        cs = []
+        for c in obs:
+            props = "[" + ";".join("(%s,%s)" % (self.str(t), self.dict(p)) for t, p in c["properties"]) + "]"
+            svcs = "[" + ";".join(
+                self.intern("v", "osvc", "(%d,%s,%d,%s)" % (PROTO_NUM[x[0]], self.ostr(x[1]), x[2], self.dict(x[3])))
+                for x in c["services"]) + "]"
+            cs.append(self.intern("c", "oconfig", "(mkO %d %s %s %d %s %s)" % (
+                c["address"], self.ostr(c["name"]), common.cbool(c["deep_sleep"]), c["model"], props, svcs)))
+        return "[" + ";".join(cs) + "]"
 
-
-def cobs(obs):
-    cs = []
-    for c in obs:
-        props = "[" + ";".join("(%s,%s)" % (cstr(t), cdict(p)) for t, p in c["properties"]) + "]"
-        svcs = "[" + ";".join("(%d,%s,%d,%s)" % (PROTO_NUM[s[0]], costr(s[1]), s[2], cdict(s[3])) for s in c["services"]) + "]"
-        cs.append("(mkO %d %s %s %d %s %s)" % (c["address"], costr(c["name"]), common.cbool(c["deep_sleep"]),
-                                              c["model"], props, svcs))
-    return "[" + ";".join(cs) + "]"
-
-
-def csizes(tables):
-    return "[" + ";".join("[" + ";".join("(%s,%d%%nat)" % (cstr(k), n) for k, n in t) + "]" for t in tables) + "]"
-
-
-def coq_scenario(idx, sc, enc, res):
-    """Definitions of the datagrams of one scenario + one `case` term per delivery order."""
-    defs = []
-    for j, d in enumerate(sc["dgrams"]):
-        defs.append("Definition d_%d_%d : dgram := %s." % (idx, j, cdgram(d, enc[j][1])))
-    cases = []
-    for order, obs, info in res:
+    def case(self, sc, enc, order, obs, info):
+        dg = [self.dgram(d, enc[j][1]) for j, d in enumerate(sc["dgrams"])]
         if sc["mode"] == "m":
-            h = "(HMulti [%s])" % ";".join("(%d, d_%d_%d)" % (sc["dgrams"][i]["src"], idx, i) for i in order)
+            h = "(HMulti [%s])" % ";".join("(%d,%s)" % (sc["dgrams"][i]["src"], dg[i]) for i in order)
         else:
             nh = 1 + max(d["host"] for d in sc["dgrams"])
             per = [[] for _ in range(nh)]
             for i in order:
-                per[sc["dgrams"][i]["host"]].append("d_%d_%d" % (idx, i))
+                per[sc["dgrams"][i]["host"]].append(dg[i])
             h = "(HUni [%s])" % ";".join("[" + ";".join(x) + "]" for x in per)
-        cases.append("(mkCase [%s] [%s] %s %s %s)" % (
-            ";".join(sc["protos"]), ";".join(cstr(x) for x in sc["ids"]), h,
-            cobs(obs) if obs != "EXC" else "[mkO 0 None false 99 [] []]", csizes(info["tables"])))
-    return defs, cases
+        return "(%s, mkCase [%s] [%s] %s %s)" % (
+            common.cbool(bool(sc["consistent"])),
+            ";".join(sc["protos"]), ";".join(self.str(x) for x in sc["ids"]), h, self.obs(obs))
 
 
 def lookup_tables():
@@ -843,18 +819,18 @@ def lookup_tables():
     return tm, ti
 
 
-def coq_file(defs, cases, tm, ti):
-    return ("From Coq Require Import List NArith. Import ListNotations.\n"
-            "From PV Require Import Common.Cases C12.Model.\n"
-            "Open Scope N_scope.\n"
+def coq_file(em, cases, tm, ti):
+    tms = ";".join("(%s,%d)" % (em.str(x), v) for x, v in tm)
+    tis = ";".join("(%s,%d)" % (em.str(x), v) for x, v in ti)
+    return ("From Coq Require Import List NArith String. Import ListNotations.\n"
+            "From PV Require Import Common.Cases C12.Model C12.Checkers.\n"
+            "Open Scope N_scope. Open Scope string_scope.\n"
+            "%s\n"
             "Definition tm : list (str * N) := [%s].\n"
             "Definition ti : list (str * N) := [%s].\n"
-            "%s\n"
-            "Definition cases : list case := [\n%s\n].\n"
-            "Eval vm_compute in (bad_indices (check_case tm ti) cases).\n"
-            % (";".join("(%s,%d)" % (cstr(s), v) for s, v in tm),
-               ";".join("(%s,%d)" % (cstr(s), v) for s, v in ti),
-               "\n".join(defs), ";\n".join(cases)))
+            "Definition cases : list (bool * case) := [\n%s\n].\n"
+            "Eval vm_compute in (bad_indices (fun bc => check_case_full tm ti (fst bc) (snd bc)) cases).\n"
+            % ("\n".join(em.defs), tms, tis, ";\n".join(cases)))
 
 
 # --------------------------------------------------------------------------- entry points
@@ -887,7 +863,7 @@ def safe_run_scenario(sc, orders):
         try:
             obs, info = run_scan(sc["mode"], sc["protos"], sc["ids"], feed_for(sc, enc, order))
         except Exception as ex:  # scan() itself raised
-            obs, info = "EXC", {"delivered": [], "tables": [], "aborted": False, "completed": [], "raised": repr(ex)}
+            obs, info = "EXC", {"delivered": [], "aborted": False, "completed": [], "raised": repr(ex)}
         res.append((order, obs, info))
     return enc, res
 
@@ -897,6 +873,12 @@ def group_judge(sc, res):
     out = []
     mode = "multicast" if sc["mode"] == "m" else "unicast"
     good = [(o, ob, i) for (o, ob, i) in res if ob != "EXC"]
+    for order, obs, info in res:
+        if obs == "EXC":
+            out.append({"key": "C12:%s:scan-raised" % mode,
+                        "what": "pyatv.scan() raised %s instead of returning the configurations of the devices that answered"
+                                % info.get("raised"), "order": order, "base": None})
+            break
     for order, obs, info in good:
         for k, w in judge_single(sc, obs):
             out.append({"key": "C12:%s:%s" % (mode, k), "what": w, "order": order, "base": None})
@@ -919,7 +901,12 @@ def group_judge(sc, res):
                             "order": o, "base": o0})
         if e != base_e and n0 != base_n:
             dup = len(o0) != len(set(o0))
-            if sc["mode"] == "m":
+            if sc["mode"] == "m" and not sc["ids"]:
+                out.append({"key": "C12:multicast:stops-listening-early",
+                            "what": "multicast scan without identifier filter closed its receivers before all datagrams "
+                                    "were delivered; the returned configurations depend on the arrival order",
+                            "order": o0, "base": base_order})
+            elif sc["mode"] == "m":
                 if dup:
                     out.append({"key": "C12:identifier-scan:early-abort-on-duplicate",
                                 "what": "identifier scan: a duplicated datagram advances the per-source counter, the scan "
@@ -938,3 +925,139 @@ def group_judge(sc, res):
                                      "more datagrams than queries, only the first ones are used"),
                             "order": o0, "base": base_order})
     return out
+
+
+def run(ctx):
+    import logging
+    logging.disable(logging.CRITICAL)
+    ctx.build_property()
+    if ctx.thorough:
+        ctx.coqchk()
+    static_checks(ctx)
+    rng = ctx.rng
+    scale = 4 if ctx.thorough else 1
+    nperm, ndup = (10, 8) if ctx.thorough else (6, 5)
+    ctx.rule = ("scenario = 1..4 simulated devices (1..5 services each; own DNS encoder, optional name compression, "
+                "varying TTLs, link-local/AAAA/NSEC extras, TXT oddities, sleep proxy, garbage, foreign service types) whose "
+                "answers are split over datagrams; plus conflicting/malformed variants for the model comparison only. "
+                "Every scenario is delivered in the identity order, in permutations (all of them up to %s datagrams, "
+                "sampled beyond) and with duplicated datagrams, to the real multicast protocol (with and without identifier "
+                "filter) or the real unicast protocol, through pyatv.scan(). Each delivery is one case, compared exactly "
+                "(order included) with the Coq model; non-trivial = at least one configuration returned; distinct by "
+                "(scenario, delivery order)." % ("6" if ctx.thorough else "4"))
+    plan = []
+    for f, c in common.load_corpus(ctx.pid):
+        plan.append((c["scenario"], c["orders"], "corpus:" + f))
+    for kind, n in (("m", 110), ("mi", 60), ("u", 50), ("ui", 15), ("xm", 50), ("xmi", 20), ("xu", 25)):
+        for _ in range(n * scale):
+            mode = "u" if "u" in kind else "m"
+            gen = gen_inconsistent if kind.startswith("x") else gen_consistent
+            sc = gen(rng, mode, "i" in kind)
+            nd = len(sc["dgrams"])
+            if ctx.thorough:
+                ex = nd <= 5 or (nd == 6 and rng.random() < 0.15)
+            else:
+                ex = nd <= 4 and rng.random() < 0.35
+            plan.append((sc, gen_orders(rng, nd, nperm, ndup, ex), kind))
+    tm, ti = lookup_tables()
+    ctx.note("built; %d scenarios planned (%.1fs)" % (len(plan), time.time() - ctx.t0))
+    all_cases = []      # (defs, case, replay)
+    for idx, (sc, orders, kind) in enumerate(plan):
+        enc, res = safe_run_scenario(sc, orders)
+        ctx.traces += len(res)
+        ctx.count("scenario:" + kind)
+        ctx.count("ndgram:%d" % min(len(sc["dgrams"]), 9))
+        ctx.count("kind:" + sc.get("kind", "?"))
+        for v in group_judge(sc, res):
+            ctx.violation(v["key"], v["what"], {"scenario": sc, "order": v["order"], "base": v["base"]})
+        # the model comparison takes a bounded sample of very large exhaustive sets
+        keep = list(range(len(res)))
+        if len(keep) > 30:
+            keep = keep[:1] + sorted(rng.sample(keep[1:], 29))
+        for j in keep:
+            order, obs, info = res[j]
+            all_cases.append((sc, enc, order, obs, info))
+        for j, (order, obs, info) in enumerate(res):
+            ctx.case((idx, tuple(order)), nontrivial=(obs != "EXC" and len(obs) > 0),
+                     sample={"mode": sc["mode"], "protocols": sc["protos"], "identifier": sc["ids"], "kind": sc.get("kind"),
+                             "datagrams": len(sc["dgrams"]), "order": order,
+                             "returned": "EXC" if obs == "EXC" else [[c["address"], [s[0] for s in c["services"]], c["model"], c["deep_sleep"]] for c in obs]}
+                     if j == 1 and idx % 40 == 0 else None)
+            ctx.count("dup" if len(order) != len(set(order)) else "perm")
+            if obs != "EXC":
+                ctx.count("configs:%d" % min(len(obs), 4))
+    # model vs implementation inside Coq
+    ctx.note("%d implementation runs judged (%.1fs)" % (ctx.traces, time.time() - ctx.t0))
+    per = 350
+    items = []
+    chunks = []
+    for i in range(0, len(all_cases), per):
+        chunk = all_cases[i:i + per]
+        em = Emit()
+        tmd = [(x, v) for x, v in tm]
+        cases = [em.case(*c) for c in chunk]
+        name = "cases_%03d" % (i // per)
+        items.append((name, coq_file(em, cases, tmd, ti)))
+        chunks.append(chunk)
+    results = common.coq_run_many(items, ctx.pid, timeout=900)
+    nbad = 0
+    for (name, _), chunk in zip(items, chunks):
+        rc, out = results[name]
+        bad = common.parse_eval_nat_list(out) if rc == 0 else None
+        if bad is None:
+            ctx.tie_broken("correspondence:" + name, out)
+        else:
+            for b in bad:
+                nbad += 1
+                if nbad <= 5:
+                    ctx.tie_broken("correspondence:scan", json.dumps({"scenario": chunk[b][0], "order": chunk[b][2]}))
+    ctx.note("%d cases compared with the model in Coq, %d disagreements (%.1fs)" % (len(all_cases), nbad, time.time() - ctx.t0))
+    ctx.extra["model_cases"] = len(all_cases)
+    ctx.extra["model_disagreements"] = nbad
+    ctx.trusted += [
+        "hand-written model coq/C12/Model.v of ServiceParser, the multicast and unicast client protocols, BaseScanner "
+        "(handle_response/_service_discovered/discover/_get_device_info MODEL key), AppleTV.add_service/merge, "
+        "get_unique_id, the scan handlers and pyatv.scan._should_include; tied by the differential run in this file "
+        "(exact comparison, order of configurations, services and properties included) evaluated in Coq by vm_compute",
+        "input abstraction: a datagram is the record list DnsMessage.unpack yields; the harness builds bytes with its own "
+        "RFC 1035/2782/6763 encoder and gives the model the structured records (names joined with '.', TXT values "
+        "through a 3-line copy of decode_value); byte-level decoding is covered by C04/C05",
+        "driver: pyatv.scan() runs unmodified; mdns.multicast/mdns.unicast/knock.knocker are replaced by stubs that build "
+        "the real protocol objects with fake transports and deliver the datagrams from one loop callback, stopping when "
+        "the protocol closes its receivers/transport (what the socket layer does); exceptions of datagram_received "
+        "are logged-and-ignored as asyncio / ReceiveDelegate do; harness/vloop.py virtual time",
+        "lookup_model/lookup_internal_name are parameters of the model; the run instantiates them with the values the "
+        "real functions return for the strings used",
+        "not modelled: credentials/password/enabled/pairing of services, service_info updaters, device_info keys other "
+        "than MODEL, the zeroconf-backed scanners (they delegate aggregation to the zeroconf package)",
+    ]
+    ctx.assumptions += [
+        "self-consistent devices = hypothesis `consistent` of the theorems (see coq/C12/Spec.v): per source one rdata per "
+        "(name, SRV/TXT), one routable A per host, per address: one (deep-sleep, model) pair, services of one protocol agree "
+        "on identifier and port and have compatible properties, services of one type have equal properties, "
+        "model hints agree",
+        "after the protocol closed its receivers/transport no further datagram is delivered",
+        "raop device_info 'wama' parsing and other extractor exceptions are outside the model (no such property generated)",
+    ]
+
+
+def replay(ctx, path):
+    import logging
+    logging.disable(logging.CRITICAL)
+    d = json.load(open(path))
+    r = d.get("replay")
+    if not r:
+        print(json.dumps(d.get("broken", d), indent=1)[:6000])
+        return 1
+    sc = r["scenario"]
+    orders = [o for o in (r.get("base"), r.get("order")) if o is not None]
+    if not orders:
+        orders = [list(range(len(sc["dgrams"])))]
+    enc, res = safe_run_scenario(sc, orders)
+    for order, obs, info in res:
+        print("order=%s delivered=%s aborted=%s completed=%s" % (order, info.get("delivered"), info.get("aborted"), info.get("completed")))
+        print("   returned=%s" % ("EXC " + str(info.get("raised")) if obs == "EXC" else json.dumps(normalise(obs))))
+    errs = group_judge(sc, res)
+    for e in errs:
+        print("property-error: %s - %s" % (e["key"], e["what"]))
+    return 1 if errs else 0
